@@ -74,8 +74,8 @@ func (d *DebugDialer) Dial(ctx context.Context, urlstr string) (conn net.Conn, b
 		// bytes from server.
 		p := resBuf.Bytes()
 		h := len(p) // Head end index. Whole buffer if the head is incomplete.
-		if n := bytes.Index(p, headEnd); n != -1 {
-			h = n + len(headEnd)
+		if n := headEndIndex(p); n != -1 {
+			h = n
 		}
 		n := h + int(resContentLength) // Body end index.
 		if n > len(p) {
@@ -129,7 +129,23 @@ func (rwc rwConn) Write(p []byte) (int, error) {
 	return rwc.w.Write(p)
 }
 
-var headEnd = []byte("\r\n\r\n")
+// headEndIndex returns the index of the first byte behind the empty line that
+// ends the response head, or -1 if there is no such line in p. Like the
+// Dialer itself (and net/http) it accepts lines that end with a bare LF.
+func headEndIndex(p []byte) int {
+	for i := 0; i < len(p); i++ {
+		if p[i] != '\n' {
+			continue
+		}
+		if i+1 < len(p) && p[i+1] == '\n' {
+			return i + 2
+		}
+		if i+2 < len(p) && p[i+1] == '\r' && p[i+2] == '\n' {
+			return i + 3
+		}
+	}
+	return -1
+}
 
 type prefetchResponseReader struct {
 	source io.Reader // Original connection source.
